@@ -53,8 +53,11 @@ func snapshot(root, skip string) map[string]string {
 		if err != nil {
 			return nil
 		}
-		if p == skip {
-			return filepath.SkipDir
+		if p == skip { // the destination itself (a directory, or whatever the archive made of it) is not "outside"
+			if info.IsDir() {
+				return filepath.SkipDir
+			}
+			return nil
 		}
 		rel, _ := filepath.Rel(root, p)
 		var st syscall.Stat_t
@@ -97,9 +100,36 @@ func diff(a, b map[string]string) []string {
 	return out
 }
 
-func build(es []entry) []byte {
+// arch: the nameless root entry (a directory in every well-formed archive), whether the destination exists, the entries
+type arch struct {
+	Root     entry
+	Absent   bool
+	Es       []entry
+	Modelled bool
+}
+
+func rootTarget(t string) []string {
+	switch t {
+	case "OUT":
+		return []string{"out"}
+	case "DST":
+		return []string{"dst"}
+	}
+	return []string{}
+}
+
+func build(root entry, es []entry) []byte {
 	var e oracle.Enc
-	e.Entry(0040755, 0, 0, 1000000000)
+	switch root.Kind {
+	case "file":
+		e.Entry(0100644, 0, 0, 1000000000)
+		e.Payload([]byte("the root is a file"))
+	case "link":
+		e.Entry(0120777, 0, 0, 1000000000)
+		e.Symlink(root.Target)
+	default:
+		e.Entry(0040755, 0, 0, 1000000000)
+	}
 	for _, x := range es {
 		switch x.Kind {
 		case "goodbye":
@@ -147,10 +177,21 @@ func main() {
 		alphabet = append(alphabet, entry{nm, "dir", ""}, entry{nm, "file", ""}, entry{nm, "link", "OUT"}, entry{nm, "link", "DST"})
 	}
 	alphabet = append(alphabet, entry{"", "goodbye", ""})
-	var archives [][]entry
+	var archives []arch
+	dirRoot := entry{"", "dir", ""}
+	roots := []entry{dirRoot, {"", "file", ""}, {"", "link", "OUT"}, {"", "link", "DST"}}
 	var rec func(cur []entry)
 	rec = func(cur []entry) {
-		archives = append(archives, append([]entry{}, cur...))
+		archives = append(archives, arch{dirRoot, false, append([]entry{}, cur...), true})
+		if len(cur) <= 1 { // every kind of root entry, destination present or absent, for the shortest archives
+			for _, rt := range roots {
+				for _, ab := range []bool{false, true} {
+					if rt.Kind != "dir" || ab {
+						archives = append(archives, arch{rt, ab, append([]entry{}, cur...), true})
+					}
+				}
+			}
+		}
 		if len(cur) == *maxEnum {
 			return
 		}
@@ -159,7 +200,6 @@ func main() {
 		}
 	}
 	rec(nil)
-	modelled := len(archives)
 	for i := 0; i < *n; i++ {
 		k := 1 + r.Intn(5)
 		var es []entry
@@ -173,7 +213,7 @@ func main() {
 			}
 			es = append(es, e)
 		}
-		archives = append(archives, es)
+		archives = append(archives, arch{roots[[]int{0, 0, 0, 1, 2, 3}[r.Intn(6)]], r.Intn(4) == 0, es, false})
 	}
 	// a second family: only well-formed names, hostile ORDERS (symlink then directory or file of the same name, entries
 	// after surplus goodbyes, links to the outside, nesting)
@@ -187,17 +227,24 @@ func main() {
 			}
 			es = append(es, e)
 		}
-		archives = append(archives, es)
+		rt := roots[[]int{0, 0, 1, 2, 2, 3}[r.Intn(6)]]
+		if rt.Kind == "link" && r.Intn(3) == 0 {
+			rt.Target = []string{"../out", "..", "OUT/secret"}[r.Intn(3)]
+		}
+		archives = append(archives, arch{rt, r.Intn(2) == 0, es, false})
 	}
 	count := 0
-	for ai, es := range archives {
+	for ai, a := range archives {
+		es := a.Es
 		for _, via := range []string{"untar", "untarindex"} {
 			if via == "untarindex" && ai%3 != 0 {
 				continue
 			}
 			os.RemoveAll(sb)
 			os.MkdirAll(filepath.Join(sb, "out"), 0755)
-			os.MkdirAll(filepath.Join(sb, "dst"), 0755)
+			if !a.Absent {
+				os.MkdirAll(filepath.Join(sb, "dst"), 0755)
+			}
 			os.WriteFile(filepath.Join(sb, "out", "secret"), []byte("sentinel"), 0600)
 			os.WriteFile(filepath.Join(sb, "sentinel.txt"), []byte("sentinel"), 0600)
 			conc := make([]entry, len(es))
@@ -205,7 +252,9 @@ func main() {
 				conc[i] = e
 				conc[i].Target = strings.Replace(strings.Replace(e.Target, "OUT", filepath.Join(sb, "out"), 1), "DST", filepath.Join(sb, "dst"), 1)
 			}
-			b := build(conc)
+			croot := a.Root
+			croot.Target = strings.Replace(strings.Replace(croot.Target, "OUT", filepath.Join(sb, "out"), 1), "DST", filepath.Join(sb, "dst"), 1)
+			b := build(croot, conc)
 			before := snapshot(sb, filepath.Join(sb, "dst"))
 			var uerr error
 			fs := desync.NewLocalFS(filepath.Join(sb, "dst"), desync.LocalFSOptions{})
@@ -234,7 +283,8 @@ func main() {
 				}
 				ej = append(ej, J{"name": comps(e.Name), "kind": e.Kind, "target": t, "raw": e.Name})
 			}
-			w.Emit(trace.M("ev", "unpack", "via", via, "entries", ej, "err", fmt.Sprint(uerr), "ok", uerr == nil, "outside", diff(before, after), "modelled", ai < modelled))
+			w.Emit(trace.M("ev", "unpack", "via", via, "entries", ej, "err", fmt.Sprint(uerr), "ok", uerr == nil, "outside", diff(before, after), "modelled", a.Modelled,
+				"root", J{"kind": a.Root.Kind, "target": rootTarget(a.Root.Target)}, "dstabsent", a.Absent))
 			count++
 		}
 	}
